@@ -113,9 +113,12 @@ type c11Member struct {
 	ending *atomic.Bool
 	clock  *atomic.Uint64
 
-	resEnd     uint64
-	resTimeout uint64
-	resSig     *tecdsa.Signature
+	resEnd      uint64
+	resTimeout  uint64
+	resSig      *tecdsa.Signature
+	resActive   []group.MemberIndex
+	resInactive []group.MemberIndex
+	resReport   bool
 
 	mu       sync.Mutex
 	recs     []*c11Rec
@@ -129,8 +132,8 @@ type c11Member struct {
 	curErrAt  map[int]bool
 	waitErrAt map[uint64]bool // announcement start blocks whose waiter call fails once
 	waitErrs  int
-	started  bool
-	startAt  uint64
+	started   bool
+	startAt   uint64
 
 	srl *signingRetryLoop
 	drl *dkgRetryLoop
@@ -185,9 +188,9 @@ func (a *c11Announcer) Announce(ctx context.Context, memberIndex group.MemberInd
 }
 
 type c11Done struct {
-	m       *c11Member
-	real    *signingDoneCheck
-	nodeOf  map[chain.Address]int
+	m      *c11Member
+	real   *signingDoneCheck
+	nodeOf map[chain.Address]int
 }
 
 func (d *c11Done) listen(ctx context.Context, message *big.Int, attemptNumber uint64, attemptTimeoutBlock uint64, attemptMembersIndexes []group.MemberIndex) {
@@ -324,7 +327,7 @@ func c11Engine(t *testing.T, r *verifsim.Run, mode string) {
 	// ---- configuration ----
 	var isDkg bool
 	switch mode {
-	case "C35":
+	case "C35", "C36":
 		isDkg = false
 	case "C09":
 		isDkg = !tp.Chance("signing-loop", 1, 4)
@@ -370,6 +373,12 @@ func c11Engine(t *testing.T, r *verifsim.Run, mode string) {
 			params.HonestThreshold = n
 		}
 		params.GroupQuorum = params.HonestThreshold
+		// a wallet whose signing group is smaller than the configured group
+		// size (members excluded by the key generation)
+		params.GroupSize = n + tp.Choose("group-size-beyond-signing-group", 4)
+		if params.GroupSize > n {
+			r.NonTrivial()
+		}
 	}
 	win := c11Window{1, 5, 30, 5}
 	if isDkg {
@@ -389,7 +398,7 @@ func c11Engine(t *testing.T, r *verifsim.Run, mode string) {
 	var failDepth int
 	if mode == "C09" && isDkg {
 		failDepth = depthChoices[tp.Weighted("fail-depth", 1, 1, 1, 2, 4, 4, 3, 2)]
-	} else if mode == "C35" {
+	} else if mode == "C35" || mode == "C36" {
 		failDepth = depthChoices[tp.Weighted("fail-depth", 2, 3, 2, 1)]
 	} else {
 		failDepth = depthChoices[tp.Weighted("fail-depth", 3, 3, 3, 2, 1, 1, 0, 0)]
@@ -431,6 +440,13 @@ func c11Engine(t *testing.T, r *verifsim.Run, mode string) {
 	doneDeliv := make([][]c11DoneDelivery, k)
 	forged := 0
 	stdSig := &tecdsa.Signature{R: big.NewInt(200), S: big.NewInt(300), RecoveryID: 1}
+	forgedAnn := 0
+	protocolID := "verif-signing"
+	if isDkg {
+		protocolID = "verif-dkg"
+	}
+	// announcements put on the wire: (claimed seat, attempt label) -> publishing nodes
+	annSent := map[[2]int]map[int]bool{}
 	rootCtx, rootCancel := context.WithCancel(context.Background())
 	defer rootCancel()
 
@@ -527,6 +543,11 @@ func c11Engine(t *testing.T, r *verifsim.Run, mode string) {
 					if res.result != nil {
 						m.resSig = res.result.Signature
 					}
+					if res.activityReport != nil {
+						m.resReport = true
+						m.resActive = c11Copy(res.activityReport.activeMembers)
+						m.resInactive = c11Copy(res.activityReport.inactiveMembers)
+					}
 					m.mu.Unlock()
 				}
 			}
@@ -557,6 +578,15 @@ func c11Engine(t *testing.T, r *verifsim.Run, mode string) {
 					att = att[i+1:]
 				}
 				f.desc = fmt.Sprintf("ann m=%d att=%s", pbm.SenderID, att)
+				if pbm.ProtocolID == protocolID && strings.HasPrefix(pbm.SessionID, seedInt.String()+"-") {
+					if an, aerr := strconv.Atoi(att); aerr == nil {
+						key := [2]int{int(pbm.SenderID), an}
+						if annSent[key] == nil {
+							annSent[key] = map[int]bool{}
+						}
+						annSent[key][e.From] = true
+					}
+				}
 				f.key = fmt.Sprintf("%02d/a/%03d/%s", e.From, pbm.SenderID, att)
 			default:
 				dm := &signingDoneMessage{}
@@ -734,6 +764,25 @@ func c11Engine(t *testing.T, r *verifsim.Run, mode string) {
 		if mode == "C35" && forged < 12 && len(ks) > 0 && maxSeenAttempt() >= 1 {
 			ks = append(ks, kindW{"forge-done", 3})
 		}
+		if mode == "C12" && forgedAnn < 30 && len(ks) > 0 {
+			// nodes that already announced legitimately, and whether some
+			// member is inside an announcement phase right now
+			open := false
+			for _, m := range members {
+				m.mu.Lock()
+				for _, x := range m.recs {
+					if x.annCalled && !x.annRet {
+						open = true
+					}
+				}
+				m.mu.Unlock()
+			}
+			if open {
+				ks = append(ks, kindW{"forge-announcement", 14})
+			} else if maxSeenAttempt() >= 1 {
+				ks = append(ks, kindW{"forge-announcement", 1})
+			}
+		}
 		if len(ks) == 0 {
 			r.Probe("nothing-to-do")
 			break
@@ -824,6 +873,55 @@ func c11Engine(t *testing.T, r *verifsim.Run, mode string) {
 				c -= len(f.left)
 			}
 			prune()
+		case "forge-announcement":
+			// a group operator's node that has already announced legitimately
+			// now claims a seat it does not hold
+			var cand []int
+			for o := 0; o < k; o++ {
+				has := false
+				for _, sidx := range seatsOfNode[o] {
+					m := members[sidx]
+					m.mu.Lock()
+					for _, x := range m.recs {
+						has = has || x.annCalled
+					}
+					m.mu.Unlock()
+				}
+				if has {
+					cand = append(cand, o)
+				}
+			}
+			if len(cand) == 0 {
+				break
+			}
+			forgedAnn++
+			o := cand[tp.Choose("forge-ann-node", len(cand))]
+			var foreign []int
+			for sidx := 0; sidx < n; sidx++ {
+				if seatNode[sidx] != o {
+					foreign = append(foreign, sidx+1)
+				}
+			}
+			claimed := 0
+			switch tp.Weighted("forge-ann-claim", 6, 1, 1, 1) {
+			case 0:
+				claimed = foreign[tp.Choose("forge-ann-foreign-seat", len(foreign))]
+			case 1:
+				claimed = 0
+			case 2:
+				claimed = n + 1
+			case 3:
+				claimed = 255
+			}
+			cur := int(maxSeenAttempt())
+			att := cur
+			if tp.Chance("forge-ann-next-attempt", 1, 6) {
+				att = cur + 1
+			}
+			fa := &c11ForgedAnn{sender: uint32(claimed), protocol: protocolID, session: fmt.Sprintf("%v-%v", seedInt, att)}
+			_ = nodes[o].Channel("c11").Send(rootCtx, fa)
+			r.Fault("forged-announcement")
+			r.Logf("forge announcement from-node=%d claims seat=%d att=%d", o, claimed, att)
 		case "forge-done":
 			// a (Byzantine or merely late) group member publishes a
 			// confirmation for its own seat, labelled with the previous, the
@@ -913,6 +1011,9 @@ func c11Engine(t *testing.T, r *verifsim.Run, mode string) {
 	}
 
 	// ---- observations -> oracles ----
+	if mode == "C12" {
+		c12AnnouncementOracle(r, members, seatNode, annSent)
+	}
 	for _, m := range members {
 		m.mu.Lock()
 		for i := 0; i < m.waitErrs; i++ {
@@ -930,6 +1031,13 @@ func c11Engine(t *testing.T, r *verifsim.Run, mode string) {
 		c35LoopOracle(r, members, seatNode, doneDeliv, seedInt)
 		return
 	}
+	if mode == "C36" {
+		c36ReportOracle(r, members, n)
+		return
+	}
+	if mode == "C12" && r.Failed() {
+		return
+	}
 	c11Oracles(r, mode, isDkg, members, seatNode, seatsOfNode, params, win, startBlock, addrOrder)
 }
 
@@ -937,6 +1045,10 @@ func c11Oracles(r *verifsim.Run, mode string, isDkg bool, members []*c11Member, 
 	params *GroupParameters, win c11Window, s uint64, addrOrder []int) {
 	n := len(members)
 	k := len(seatsOfNode)
+	// C12 runs the engine with every oracle on
+	w11 := mode == "C11" || mode == "C12"
+	s10 := mode == "C10" || mode == "C12"
+	s09 := mode == "C09" || mode == "C12"
 	loop := "signing"
 	if isDkg {
 		loop = "dkg"
@@ -979,7 +1091,7 @@ func c11Oracles(r *verifsim.Run, mode string, isDkg bool, members []*c11Member, 
 			if x.annRet && len(x.ready) < n {
 				r.Probe(loop + ":not-everyone-ready")
 			}
-			if mode == "C11" {
+			if w11 {
 				c11CheckWindows(r, loop, m, x, prev, win, s)
 			}
 			prev = x
@@ -987,7 +1099,7 @@ func c11Oracles(r *verifsim.Run, mode string, isDkg bool, members []*c11Member, 
 	}
 	sort.Slice(attempts, func(i, j int) bool { return attempts[i] < attempts[j] })
 
-	if mode == "C11" {
+	if w11 {
 		// identical windows across members
 		for _, a := range attempts {
 			var first *obs
@@ -1007,7 +1119,9 @@ func c11Oracles(r *verifsim.Run, mode string, isDkg bool, members []*c11Member, 
 				}
 			}
 		}
-		return
+		if mode == "C11" || r.Failed() {
+			return
+		}
 	}
 
 	// ---- selections (C10, C09) ----
@@ -1055,7 +1169,7 @@ func c11Oracles(r *verifsim.Run, mode string, isDkg bool, members []*c11Member, 
 			for _, mi := range included {
 				if !c11Has(x.ready, mi) {
 					cls := "C10:included-member-not-ready"
-					if mode == "C09" {
+					if s09 {
 						cls = "C09:result-not-a-sublist-of-the-seats"
 					}
 					r.Failf(cls, "%s attempt %d, member %d: member %d is included although it is not in the ready set %v this member observed (included %v)",
@@ -1063,14 +1177,14 @@ func c11Oracles(r *verifsim.Run, mode string, isDkg bool, members []*c11Member, 
 					return
 				}
 			}
-			if x.invoked && !c11Has(included, o.m.idx) && mode == "C10" {
+			if x.invoked && !c11Has(included, o.m.idx) && s10 {
 				r.Failf("C10:excluded-member-ran-attempt", "%s attempt %d: member %d ran the attempt although it is not among the included members %v", loop, a, o.m.idx, included)
 				return
 			}
 			if isDkg {
 				if len(included) < params.GroupQuorum {
 					cls := "C10:dkg-attempt-below-quorum"
-					if mode == "C09" {
+					if s09 {
 						cls = "C09:fewer-seats-than-requested"
 					}
 					var exOps []string
@@ -1087,7 +1201,7 @@ func c11Oracles(r *verifsim.Run, mode string, isDkg bool, members []*c11Member, 
 				for nd := 0; nd < k; nd++ {
 					if inclOps[nd] != 0 && inclOps[nd] != readyOps[nd] {
 						cls := "C10:operator-partially-included"
-						if mode == "C09" {
+						if s09 {
 							cls = "C09:operator-seats-split"
 						}
 						r.Failf(cls, "dkg attempt %d, member %d: operator %d has %d ready seats but %d of them are included (ready %v, included %v)",
@@ -1096,12 +1210,12 @@ func c11Oracles(r *verifsim.Run, mode string, isDkg bool, members []*c11Member, 
 					}
 				}
 			} else {
-				if mode == "C10" && len(included) != params.HonestThreshold {
+				if s10 && len(included) != params.HonestThreshold {
 					r.Failf("C10:signing-included-count-not-honest-threshold", "signing attempt %d, member %d: %d members included (%v), honest threshold is %d (ready %v)",
 						a, o.m.idx, len(included), included, params.HonestThreshold, x.ready)
 					return
 				}
-				if mode == "C10" && x.invoked {
+				if s10 && x.invoked {
 					for mi := 1; mi <= n; mi++ {
 						in := c11Has(included, group.MemberIndex(mi))
 						ex := c11Has(x.excluded, group.MemberIndex(mi))
@@ -1111,7 +1225,7 @@ func c11Oracles(r *verifsim.Run, mode string, isDkg bool, members []*c11Member, 
 						}
 					}
 				}
-				if mode == "C09" && x.signSeatsObs {
+				if s09 && x.signSeatsObs {
 					r.Probe("signing:seat-list-observed")
 					inCnt, outCnt := map[int]int{}, map[int]int{}
 					for _, nd := range x.signSeatsIn {
@@ -1146,7 +1260,7 @@ func c11Oracles(r *verifsim.Run, mode string, isDkg bool, members []*c11Member, 
 						}
 					}
 				}
-				if mode == "C09" && x.qualObserved {
+				if s09 && x.qualObserved {
 					seats := 0
 					for _, nd := range x.qualified {
 						if readyOps[nd] == 0 {
@@ -1210,19 +1324,19 @@ func c11Oracles(r *verifsim.Run, mode string, isDkg bool, members []*c11Member, 
 				r.Probe(loop + ":selections-compared")
 				if c11SetKey(fIncl) != c11SetKey(included) {
 					cls := "C10:members-with-same-ready-set-disagree"
-					if mode == "C09" {
+					if s09 {
 						cls = "C09:members-disagree-on-selection"
 					}
 					r.Failf(cls, "%s attempt %d: members %d and %d both observed ready set %v but include %v and %v",
 						loop, a, f.m.idx, o.m.idx, x.ready, fIncl, included)
 					return
 				}
-				if mode == "C09" && !isDkg && f.x.signSeatsObs && x.signSeatsObs && fmt.Sprint(f.x.signSeatsOut) != fmt.Sprint(x.signSeatsOut) {
+				if s09 && !isDkg && f.x.signSeatsObs && x.signSeatsObs && fmt.Sprint(f.x.signSeatsOut) != fmt.Sprint(x.signSeatsOut) {
 					r.Failf("C09:members-disagree-on-selection", "signing attempt %d: members %d and %d both observed ready set %v but the retry evaluation returned seat lists %v and %v",
 						a, f.m.idx, o.m.idx, x.ready, f.x.signSeatsOut, x.signSeatsOut)
 					return
 				}
-				if mode == "C09" && !isDkg && f.x.qualObserved && x.qualObserved && fmt.Sprint(f.x.qualified) != fmt.Sprint(x.qualified) {
+				if s09 && !isDkg && f.x.qualObserved && x.qualObserved && fmt.Sprint(f.x.qualified) != fmt.Sprint(x.qualified) {
 					r.Failf("C09:members-disagree-on-selection", "signing attempt %d: members %d and %d both observed ready set %v but selected operators %v and %v",
 						a, f.m.idx, o.m.idx, x.ready, f.x.qualified, x.qualified)
 					return
@@ -1233,7 +1347,7 @@ func c11Oracles(r *verifsim.Run, mode string, isDkg bool, members []*c11Member, 
 			}
 		}
 	}
-	if mode == "C09" && isDkg {
+	if s09 && isDkg {
 		// history of one loop, per input (ready set): exclusions pairwise
 		// distinct and ordered singles -> pairs -> triplets
 		for _, rk := range histKeys {
@@ -1324,5 +1438,106 @@ func c11CheckWindows(r *verifsim.Run, loop string, m *c11Member, x, prev *c11Rec
 	}
 	if prev != nil && prev.invoked && x.n > prev.n+1 {
 		r.Probe(loop + ":attempts-skipped-after-own-attempt-overrun")
+	}
+}
+
+// c11ForgedAnn: an announcement as a Byzantine node would put it on the wire.
+type c11ForgedAnn struct {
+	sender   uint32
+	protocol string
+	session  string
+}
+
+func (f *c11ForgedAnn) Type() string { return "protocol_announcer/announcement_message" }
+func (f *c11ForgedAnn) Marshal() ([]byte, error) {
+	return proto.Marshal(&announcerpb.AnnouncementMessage{SenderID: f.sender, ProtocolID: f.protocol, SessionID: f.session})
+}
+
+// c12AnnouncementOracle: a seat is in a member's ready set for attempt n only
+// if a node that holds that seat published an announcement of that seat for
+// that attempt (the member's own seat is ready by definition).
+func c12AnnouncementOracle(r *verifsim.Run, members []*c11Member, seatNode []int, annSent map[[2]int]map[int]bool) {
+	for _, m := range members {
+		m.mu.Lock()
+		recs := append([]*c11Rec{}, m.recs...)
+		m.mu.Unlock()
+		for _, x := range recs {
+			if !x.annRet {
+				continue
+			}
+			for _, mi := range x.ready {
+				if mi == m.idx {
+					continue
+				}
+				seat := int(mi)
+				if seat < 1 || seat > len(seatNode) {
+					r.Failf("C12:announcer-accepted-nonexistent-seat", "member %d attempt %d: ready set %v contains seat %d, the group has %d seats", m.idx, x.n, x.ready, seat, len(seatNode))
+					return
+				}
+				if !annSent[[2]int{seat, int(x.n)}][seatNode[seat-1]] {
+					var pubs []int
+					for nd := range annSent[[2]int{seat, int(x.n)}] {
+						pubs = append(pubs, nd)
+					}
+					sort.Ints(pubs)
+					r.Failf("C12:announcer-accepted-seat-from-foreign-key", "member %d attempt %d: seat %d is in the ready set %v although its holder (node %d) never announced it for that attempt; announcements claiming that seat for that attempt were published only by nodes %v",
+						m.idx, x.n, seat, x.ready, seatNode[seat-1], pubs)
+					return
+				}
+			}
+			r.Probe("c12:ready-set-checked")
+		}
+	}
+}
+
+// c36ReportOracle: the activity report of a finished signing loop - the input
+// of the heartbeat's inactivity claim - names as inactive exactly the seats of
+// the wallet's signing group that did not announce readiness for the
+// successful attempt, and as active exactly those that did.
+func c36ReportOracle(r *verifsim.Run, members []*c11Member, n int) {
+	for _, m := range members {
+		m.mu.Lock()
+		recs := append([]*c11Rec{}, m.recs...)
+		fin, ok, rep := m.finished, m.resOK, m.resReport
+		act, inact, tmo := m.resActive, m.resInactive, m.resTimeout
+		m.mu.Unlock()
+		for _, x := range recs {
+			r.Logf("obs member=%d att=%d ready=%v listen=%v/%d invoked=%v", m.idx, x.n, x.ready, x.listened, x.listenTimeout, x.invoked)
+		}
+		if !fin || !ok {
+			continue
+		}
+		if !rep {
+			r.Failf("C36:signing-result-without-activity-report", "member %d: signing loop returned a result without an activity report", m.idx)
+			return
+		}
+		var x *c11Rec
+		for _, y := range recs {
+			if y.listened && y.listenTimeout == tmo && y.annRet {
+				x = y
+			}
+		}
+		if x == nil {
+			continue
+		}
+		r.Probe("report:checked")
+		var want []group.MemberIndex
+		for s := 1; s <= n; s++ {
+			if !c11Has(x.ready, group.MemberIndex(s)) {
+				want = append(want, group.MemberIndex(s))
+			}
+		}
+		if len(want) > 0 {
+			r.Probe("report:some-members-inactive")
+		}
+		if c11SetKey(inact) != c11SetKey(want) {
+			r.Failf("C36:inactive-members-not-complement-of-ready-set", "member %d, successful attempt %d: the signing group has %d seats and the seats that announced readiness are %v, so the inactive members are %v; the activity report names %v",
+				m.idx, x.n, n, x.ready, want, inact)
+			return
+		}
+		if c11SetKey(act) != c11SetKey(x.ready) {
+			r.Failf("C36:active-members-not-the-ready-set", "member %d, successful attempt %d: ready set %v, activity report's active members %v", m.idx, x.n, x.ready, act)
+			return
+		}
 	}
 }
